@@ -606,10 +606,24 @@ def if_op(node: ir.Node, op, state: OptimizerState) -> ReturnValue:
             for formal, actual in zip(formal_outs, actual_outs)
             if actual is not None
         }
-        # TODO: Extend renaming to intermediate values.
+        # Names in disjoint scopes may coincide: an intermediate value of the branch must not
+        # take the name of a value that the enclosing graph already defines.
+        main_graph = node.graph
+        taken: set[str | None] = set()
+        if main_graph is not None:
+            taken.update(v.name for main_node in main_graph for v in main_node.outputs)
+            taken.update(main_graph.initializers)
+            taken.update(v.name for v in main_graph.inputs)
 
         def rename(name):
-            return renamings.get(name, name)
+            if name in renamings:
+                return renamings[name]
+            if name not in taken:
+                return name
+            suffix = 1
+            while f"{name}_{suffix}" in taken:
+                suffix += 1
+            return f"{name}_{suffix}"
 
         graph_nodes = list(graph)
         graph.remove(graph_nodes)
@@ -617,11 +631,11 @@ def if_op(node: ir.Node, op, state: OptimizerState) -> ReturnValue:
             # TODO: handle renaming inside subgraphs in nodes
             for v in sub_node.outputs:
                 v.name = rename(v.name)
+                taken.add(v.name)
             # Avoid name collision.
             sub_node.name = f"{node.name}_{sub_node.name}"
 
         # Move initializers from the subgraph to the main graph to avoid losing them.
-        main_graph = node.graph
         if main_graph is not None:
             _move_initializers_to_graph(graph, main_graph)
 
